@@ -54,7 +54,9 @@ META = {
               "parser ATN (both inclusions, z3). (d) inductive-step shards assert 'no exception' incl. a symbolic command name. (e) translator validation: real CMakeLexer vs the regex "
               "model on the repo's files/tests, z3 witnesses and seeded random strings; thorough: every module shipped with CMake through the real Documenter (corpus replay). "
               "(f) witness replay: z3 picks valid files with large sizes (deep parentheses, high bracket levels, many arguments/commands, long lines); the real CLI must process each to completion.",
-  assumptions=["legacy unquoted arguments are outside (as the property says)"], outside=["bracket/parenthesis depth > D", "CMake's own lexer is represented by manual-derived regexes"],
+  assumptions=["legacy unquoted arguments are outside (as the property says)"], outside=["bracket/parenthesis depth > D", "CMake's own lexer is represented by manual-derived regexes",
+           "line ends: the reference takes CR, CR LF and LF alike (as CMinx's grammar does); CMake ends a comment line at LF only: known finding D19, isolated in an obligation of its own",
+           "a UTF-8 byte-order mark at the start of a file (CMake skips it, CMinx reads U+FEFF as argument text)"],
   trusted=TRUSTED_E2 + TRUSTED_CH),
  "C06": dict(
   explanation="(a) local fault lemmas (z3 on the lexer ATN): for each fault language of the remaining input (unterminated quote, backslash+alnum, backslash at EOF, bad escape inside quotes, "
